@@ -129,10 +129,14 @@ def main(argv: list[str]) -> int:
                 tool_errors.append(str(e))
 
     ledger = json.loads(LEDGER.read_text()) if LEDGER.exists() else {}
-    base = set(ledger.get(pid, []))
+    # obligation identity for the drift check: the name without the per-path counters (#k) and auto-split indices (~k),
+    # which change with every edit that adds or removes a path; what must not disappear is the obligation itself
+    norm = lambda i: re.sub(r'(#\d+|~\d+)', '', i)
+    base = {norm(i) for i in ledger.get(pid, [])}
     # native failing inputs found by the bounded contract monitors of this property in this run: they serve as the
     # native reproduction of a failed obligation when its own counter-model was not concretised
-    native = [f for rep in reports for f in rep.findings if match_known(known, f.key, f.what) is None]
+    native = [f for rep in reports for f in rep.findings if match_known(known, f.key, f.what) is None
+              and not (re.match(r'^C\d\d\.', f.key) and not f.key.startswith(pid + '.'))]
     # 3. failed obligations -> replay natively
     for ob in obligations:
         if ob.status == 'discharged':
@@ -163,7 +167,7 @@ def main(argv: list[str]) -> int:
             finding = Finding(key=nf.key, what='native failing input (bounded contract monitor, same run): ' + nf.what,
                               script=nf.script, data=nf.data)
             what = finding.what + '\n' + what
-        if finding is None and ob.id not in base and base:
+        if finding is None and norm(ob.id) not in base and base:
             undecided.append(f'{ob.id}: new obligation (not in baseline ledger) failed without native reproduction: {ob.detail[:300]}')
             continue
         p = write_replay(pid, key, what, finding.script if finding else '', {'model': ob.model, 'solver': ob.detail[:4000]})
@@ -172,13 +176,15 @@ def main(argv: list[str]) -> int:
     if hasattr(prop, 'deductive') and not tool_errors:
         if not obligations:
             tool_errors.append('zero obligations generated')
-        missing = sorted(base - {o.id for o in obligations})
+        missing = sorted(base - {norm(o.id) for o in obligations})
         for m in missing:
             undecided.append(f'{m}: obligation of the baseline ledger was not generated (contract drift)')
 
-    # 4. bounded findings
+    # 4. bounded findings (a monitor shared by two properties labels each clause with the property it belongs to)
     for rep in reports:
         for f in rep.findings:
+            if re.match(r'^C\d\d\.', f.key) and not f.key.startswith(pid + '.'):
+                continue
             k = match_known(known, f.key, f.what)
             if k is not None:
                 known_hits.append(f"KNOWN-FINDING: property={pid} {k.get('what', f.key)}")
